@@ -27,7 +27,8 @@ class Job:
                  min_loop_obligations=0, unsigned_overflow_check=False,
                  drop_flags=(), object_bits=None, cbmc_extra=(), min_cover=1,
                  functions=(), trusted=(), assumptions=(), extracted=(),
-                 replay=None, note='', props=None):
+                 replay=None, note='', props=None, cex_unwind=None, expect_fail=False,
+                 no_unwinding_assertions=False):
         self.unit, self.config = unit, config
         self.c_text, self.entry = c_text, entry
         self.enforce, self.replace = enforce, list(replace)
@@ -49,6 +50,10 @@ class Job:
         self.replay = replay
         self.note = note
         self.props = props                 # None = serves every property of the unit
+        self.expect_fail = expect_fail     # job ends in a never-returns assertion that must be unreachable... see run_job
+        self.no_unwinding_assertions = no_unwinding_assertions
+        self.broken = None
+        self.cex_unwind = cex_unwind       # counterexample search by unwinding when only invariant obligations fail
         self.shim_dir = SHIM
         self.binary = None
 
@@ -74,6 +79,12 @@ def clause_text(job, ob):
 
 
 def run_job(job, tier):
+    if job.broken:
+        r = cbmc.JobResult(job)
+        r.reason = job.broken
+        r.cover = (0, 0, [], '')
+        r.cross = None
+        return r
     wd = job.workdir()
     shutil.rmtree(wd, ignore_errors=True)
     os.makedirs(wd, exist_ok=True)
@@ -281,6 +292,15 @@ def run_property(prop, spec, tier, seed, only_units=None):
                                           'assert' in t[2]['name']) else 1))
             for idx, (j, r, ob, obkey) in enumerate(lst[:1]):
                 info = {'reproduced': None, 'detail': 'no replay driver for this unit', 'input': None}
+                contract_level = ('postcondition' in ob['name'] or ob['name'].startswith('h_') or '.assertion.' in ob['name'])
+                if j.replay is not None and not contract_level and j.cex_unwind:
+                    # the failing obligation is an inductive step (havocked loop state): look for a
+                    # concrete input by unwinding the same extracted function instead
+                    r2 = cex_by_unwinding(j)
+                    cand = [o for o in r2.failed if 'postcondition' in o['name'] or '.assertion.' in o['name']]
+                    if cand and r2.traces.get(cand[0]['name']):
+                        r, ob = r2, cand[0]
+                        print('  (inductive-step failure; concrete counterexample found by unwinding: %s)' % ob['name'])
                 if j.replay is not None:
                     try:
                         info = j.replay(j, r, ob) or info
@@ -379,6 +399,18 @@ def run_property(prop, spec, tier, seed, only_units=None):
           % (prop, tier, len(jobs), n_dis, n_ob, n_bdis, n_bob, cover_hit,
              cover_total, solver_s, time.time() - t0, rc))
     return rc
+
+
+def cex_by_unwinding(j):
+    import copy
+    j2 = copy.copy(j)
+    j2.loop_contracts = False
+    j2.unwind = j.cex_unwind
+    j2.config = j.config + '+cex-unwind'
+    wd = j2.workdir()
+    shutil.rmtree(wd, ignore_errors=True)
+    os.makedirs(wd, exist_ok=True)
+    return cbmc.verify(j2, wd)
 
 
 def undecided_blocks(undecided):
